@@ -25,7 +25,7 @@ RULE = (
 )
 ASSUMPTIONS = ["hashlib is correct", "coincidence bound for fresh salts: 2^-128 (md5 salt is 16 bytes)"]
 REQUIRED = ["alg:md5", "alg:sha1", "alg:sha224", "alg:sha256", "alg:sha384", "alg:sha512", "p:bytes", "p:str",
-            "q:near-miss", "default:plaintext", "default:digest", "route:document", "place:nested", "env:blank", "env:absent"]
+            "q:near-miss", "default:plaintext", "default:digest", "route:document", "place:nested", "env:blank", "env:absent", "route:xml-handwritten"]
 LEVEL_TEXT = (
     "Generated secrets/algorithms/formats with hashlib recomputation as the independent oracle and a save/load "
     "round trip; evidence on the explored inputs, kills fixed-salt / truncated-compare / re-hash-on-load mutants."
@@ -93,7 +93,7 @@ def strategy(tier):
             "fmt": st.sampled_from(trees.FORMATS),
             "default": st.sampled_from(["none", "none", "plaintext", "digest"]),
             "place": st.sampled_from(["root", "nested", "configtype"]),
-            "route": st.sampled_from(["attr", "ctor", "load_tree", "document"]),
+            "route": st.sampled_from(["attr", "ctor", "load_tree", "document", "xml-handwritten"]),
             "salt": st.binary(min_size=0, max_size=80),
             # the field is bound to an environment variable that is absent, or present but blank (= not set, for every field)
             "env": st.sampled_from([None, None, "absent", "blank"]),
@@ -240,6 +240,8 @@ def _run_case(case, R):
 
     # -- assign p through the chosen route ---------------------------------------------------
     route = case["route"]
+    if route == "xml-handwritten" and not (isinstance(p, str) and trees.xml_text_ok(p) and "\r" not in p):
+        route = "document"
     if route == "document" and isinstance(p, bytes):
         route = "attr"  # documents carry strings
     if route == "attr":
@@ -260,6 +262,16 @@ def _run_case(case, R):
             cfg[".".join(path)] = p
         else:
             cfg.load_tree(nest(p))
+    elif route == "xml-handwritten":
+        # a document written by hand: the maps are marked as such, the secret is a plain untyped element whose text is
+        # the plaintext exactly as typed (leading / trailing blanks included)
+        from xml.sax.saxutils import escape
+        R.label("route:xml-handwritten")
+        cfg = schema()
+        body = "<pw>%s</pw>" % escape(p)
+        for k in reversed(path[:-1]):
+            body = '<%s type="dict">%s</%s>' % (k, body, k)
+        cfg.loads(("<config>%s</config>" % body).encode("utf-8"), "xml")
     else:
         cfg = schema()
         doc = cc.ConfigFormat.get(fmt).dumps(cfg, nest(p))
